@@ -132,6 +132,11 @@ def build_problem(case):
     for nm, t in P['types'].items():
         if not t.get('use_low_fidelity_model') and rng.random() < 0.4:
             wl.add_pin_model(rng, P, nm, kind='fuel')
+        if not t.get('use_low_fidelity_model') and rng.random() < 0.5:
+            # spacer grids (loss coefficient from a correlation depends on
+            # the flow of the assembly that evaluates it)
+            wl.add_spacer_grid(rng, P, nm, modes=('loss', 'REH', 'CDD',
+                                                  'CDD'))
     if rng.random() < 0.3:
         P['setup']['param_update_tol'] = float(wl.choose(rng, [1e-3, 0.01,
                                                                 0.05]))
